@@ -153,6 +153,12 @@ def cli(E, R, command, testnet, to_file, ln):
     return C20.main_wiring(E, R, command, testnet, True, to_file, ln)
 
 
+def cli_vector(E, R, **kw):
+    """end-to-end runs of `python -m btc_hd_wallet` with --paranoia somewhere in the argument vector (C20's vectors)"""
+    from props import C20
+    return C20.cli_vector(E, R, **kw)
+
+
 def cases(tier):
     cs = []
     for command, t, f, ln in (("from-mnemonic", False, True, 1), ("from-bip39-seed", True, False, 1), ("new", False, False, 0),
@@ -179,4 +185,9 @@ def vectors():
     return [("filter_", dict(testnet=False, ln=2), {"k": k, "c": c, "account": 0, "start": 0}),
             ("filter_", dict(testnet=True, ln=1), {"k": k, "c": c, "account": 3, "start": 5}),
             ("emit", dict(testnet=True, ln=0, channel="stdout"), {"k": k, "c": c, "account": 3, "start": 5}),
-            ("emit", dict(testnet=False, ln=1, channel="file"), {"k": k, "c": c, "account": 3, "start": 5})]
+            ("emit", dict(testnet=False, ln=1, channel="file"), {"k": k, "c": c, "account": 3, "start": 5})] + _cli_vectors()
+
+
+def _cli_vectors():
+    from props import C20
+    return [(fn, params, w) for (fn, params, w) in C20.vectors() if fn == "cli_vector" and "--paranoia" in params["argv"]]
